@@ -53,9 +53,11 @@ class MDPPEnv(DPPEnv):
         reward_type: str = "minmax",
         **kwargs,
     ):
-        super().__init__(**kwargs)
         if generator is None:
             generator = MDPPGenerator(**generator_params)
+        # DPPEnv copies the number of decaps, the grid size and the chip data from its generator:
+        # give it this generator instead of letting it build (and load the data of) a default one
+        super().__init__(generator=generator, **kwargs)
         self.generator = generator
 
         assert reward_type in [
